@@ -1890,6 +1890,9 @@ coap_send_internal(coap_session_t *session, coap_pdu_t *pdu) {
   coap_queue_t *node = coap_new_node();
   if (!node) {
     coap_log_debug("coap_wait_ack: insufficient memory\n");
+    /* Sent, but will never be tracked: give back the NSTART slot taken in coap_send_pdu() */
+    if (session->con_active)
+      session->con_active--;
     goto error;
   }
 
